@@ -34,12 +34,12 @@ TOL = 1e-9
 
 
 def cases(tier, seed):
-    n = 480 if tier == "quick" else 20000
+    n = 480 if tier == "quick" else 80000
     out = [{"sub": "circ", "i": i} for i in range(n)]
     out += [{"sub": "eq", "i": i} for i in range(16 if tier == "quick" else 400)]
     out += [{"sub": "clifford", "kmax": 12 if tier == "quick" else 64}]
-    out += [{"sub": "reindex", "i": i} for i in range(64 if tier == "quick" else 800)]
-    out += [{"sub": "gaptrim", "i": i} for i in range(96 if tier == "quick" else 2000)]
+    out += [{"sub": "reindex", "i": i} for i in range(64 if tier == "quick" else 4000)]
+    out += [{"sub": "gaptrim", "i": i} for i in range(96 if tier == "quick" else 8000)]
     out.append({"sub": "repo_tests", "tier": tier})
     return out
 
